@@ -2,7 +2,7 @@
 import concurrent.futures, json
 from . import common as C
 
-HEADER = 'From WM Require Import Base.Prelude Message.Model Value.Model Value.Codec Corr.C16.\n'
+HEADER = 'From Coq Require Import Uint63.\nFrom WM Require Import Base.Prelude Message.Model Value.Model Value.Codec Corr.C16.\n'
 
 TRUSTED_BASE = [
     'library oracles (Section variables of coq/Value/Codec.v, never proved): encoding/json Marshal/Unmarshal of the envelope struct, of CQRS values and of reply results; '
@@ -26,9 +26,25 @@ class Terms:
     """Gallina term builder with sharing of long byte strings"""
     def __init__(self):
         self.defs = {}
+        self.terms = {}      # shared sub-terms (messages, object views): term text -> name
+        self.order = []
+    def share(self, prefix, typ, term):
+        k = self.terms.get(term)
+        if k is None:
+            k = '%s%d' % (prefix, len(self.terms))
+            self.terms[term] = k
+            self.order.append('Definition %s : %s := %s.' % (k, typ, term))
+        return k
+    @staticmethod
+    def packed(b):
+        words = [int.from_bytes(b[i:i + 7], 'little') for i in range(0, len(b), 7)]
+        tail = len(b) - 7 * (len(words) - 1)
+        return '(pk [%s]%%uint63 %d)' % (';'.join(str(w) for w in words), tail)
     def bytes_(self, b):
-        if len(b) <= 16:
+        if len(b) <= 6:
             return '[' + ';'.join(str(x) for x in b) + ']%N'
+        if len(b) <= 28:
+            return self.packed(b)
         k = self.defs.get(b)
         if k is None:
             k = 'bs%d' % len(self.defs)
@@ -45,12 +61,12 @@ class Terms:
             return 'None'
         return '(Some [%s])' % ';'.join('(%s,%s)' % (self.hx(k), self.hx(v)) for k, v in m)
     def msg(self, m):
-        return '(Msg %s %s %s)' % (self.hx(m['u']), self.obytes(m['p']), self.meta(m['m']))
+        return self.share('m', 'msg', '(Msg %s %s %s)' % (self.hx(m['u']), self.obytes(m['p']), self.meta(m['m'])))
     def header(self):
         out = [HEADER]
         for b, k in self.defs.items():
-            out.append('Definition %s : list N := [%s]%%N.' % (k, ';'.join(str(x) for x in b)))
-        return '\n'.join(out) + '\n'
+            out.append('Definition %s : list N := %s.' % (k, self.packed(b)))
+        return '\n'.join(out + self.order) + '\n'
 
 def B(x):
     return C.coq_bool(bool(x))
@@ -78,7 +94,7 @@ def st_term(T, c):
         elif r[0] == 'unit': rt = 'RUnit'
         elif r[0] == 'b': rt = '(RB %s)' % B(r[1])
         else: rt = 'RPanicked'
-        views = ';'.join('(OV %s %s %s)' % (T.msg(v['m']), B(v['a']), B(v['n'])) for v in snap)
+        views = ';'.join(T.share('v', 'oview', '(OV %s %s %s)' % (T.msg(v['m']), B(v['a']), B(v['n']))) for v in snap)
         tr.append('(%s,[%s])' % (rt, views))
     return '(StC [%s] [%s])' % (';'.join(ops), ';'.join(tr))
 
